@@ -4,6 +4,7 @@ import Ts.Cycle
 import Ts.Order
 import Ts.Refine
 import Ts.CycleSound
+import Ts.Deploy
 namespace TsDrv
 open Ts
 
@@ -37,6 +38,16 @@ partial def loop (h : IO.FS.Stream) (g : G) : IO Unit := do
       | [p, r] => some (⟨pl p, pl r⟩ : Ord.Item)
       | _ => none
     IO.println (if Ord.orderValid items (pl ord) then "ok" else "bad")
+    loop h g
+  | ["dep", reg, fs, present, leaf] =>
+    let pl := fun (s : String) => if s = "-" then [] else (s.splitOn "+").filterMap (·.toNat?)
+    let item := fun (s : String) => match s.splitOn ":" with
+      | [n, p, r, f] => some (⟨n.toNat!, pl p, pl r, pl f⟩ : Dp.DItem)
+      | _ => none
+    let registry := (reg.splitOn ";").filterMap item
+    (match item leaf with
+    | some l => IO.println s!"{(Dp.deploy registry (pl fs) (pl present) l).map (·.name)}"
+    | none => IO.println "bad-op")
     loop h g
   | "nop" :: _ => IO.println "ok"; loop h g
   | "res" :: its =>
